@@ -195,6 +195,62 @@ pub fn model_loop<S: Source>(s: &mut S, input: &[usize], inp: usize, out: usize,
     forget((init, costf));
 }
 
+/// `Model::update` in isolation: the layers' parameters hold harness-supplied gradients; the
+/// model's update must step every parameter of every layer by its own gradient and clear it
+pub fn model_update_only<S: Source>(s: &mut S, two_layers: bool) {
+    use corgi::model::Model;
+    let lr = s.lr();
+    let gd = GradientDescent::new(lr);
+    let i1 = initializer(s.vals(2, Dom::D4));
+    let i2 = initializer(s.vals(4, Dom::D4));
+    let mut l1 = Dense::new(1, 1, &i1, None);
+    let mut l2 = Dense::new(1, 2, &i2, None);
+    let costf = cost::mse();
+    let mut old: Vec<Vec<Float>> = Vec::new();
+    let mut grads: Vec<Vec<Float>> = Vec::new();
+    let mut keep: Vec<Array> = Vec::new();
+    {
+        let mut ps = l1.parameters();
+        if two_layers {
+            ps.append(&mut l2.parameters());
+        }
+        for p in ps {
+            let g = s.vals(p.values().len(), Dom::D4);
+            *p.gradient_mut() = Some(Array::from((p.dimensions().to_vec(), g.clone())));
+            old.push(p.values().to_vec());
+            grads.push(g);
+            keep.push(p.clone());
+        }
+    }
+    {
+        let mut model = if two_layers {
+            Model::new(vec![&mut l1, &mut l2], &gd, &costf)
+        } else {
+            Model::new(vec![&mut l1], &gd, &costf)
+        };
+        model.update();
+        forget(model);
+    }
+    let mut ps = l1.parameters();
+    if two_layers {
+        ps.append(&mut l2.parameters());
+    }
+    for (pi, p) in ps.into_iter().enumerate() {
+        chk!(p.gradient().is_none(), "[c14:gradient-left] a gradient survived the update");
+        for k in 0..old[pi].len() {
+            chk!(p.values()[k] == old[pi][k] - lr * grads[pi][k], "[c14:step] parameter did not move by -lr times its own gradient");
+        }
+        let was = p.stop_tracking();
+        if was {
+            p.start_tracking();
+        }
+        chk!(was, "[c14:untracked] an updated parameter is not tracked");
+    }
+    witness();
+    forget((l1, l2, keep));
+    forget((i1, i2, costf));
+}
+
 /// one iteration of a stack of two conv layers (the first layer's parameters receive their
 /// gradient through the second convolution's *input* derivative) with the bilinear cost
 pub fn conv2_loop<S: Source>(
